@@ -22,7 +22,7 @@ add("C10", "jaxpr2smt",
 
 add("C09", "jaxpr2smt",
     "bounded symbolic execution: jaxprs of the live Graph.run/reset/step/rollout/init compositions interpreted on one fully symbolic GraphState (incl. schedule arrays) over z3 terms; z3 decides leaf-wise equality / clipping laws; counterexamples replayed on the real eager+jit functions",
-    "For every GraphState of the enumerated tiny compiled instances (all three supergraph modes) the API compositions run^n;run_until_supervisor, reset;step^n, rollout (carry/full), jit and vmap variants and the overridden step yield identical states; eps/step indices clip for every int; init hands over params/clipped indices. Bounded: n<=2(3) steps, batch 2, instances enumerated.",
+    "For every GraphState of the enumerated tiny compiled instances (all three supergraph modes) the API compositions run^n;run_until_supervisor, reset;step^n, rollout (carry/full), jit and vmap variants and the overridden step yield identical states; eps/step indices clip for every int; init hands over params/clipped indices. Bounded: n<=2(3) steps, batch 2, instances enumerated. Probe nodes consume and advance their rng (stochastic supervisors), so compositions also compare the keys.",
     "floats as reals (float32 rounding outside), ints unbounded; probe nodes with arithmetic step functions; jaxpr taken as the meaning of jitted code (XLA not examined); instance family enumerated, not quantified",
     "DESIGN.md §6 C09")
 
@@ -34,7 +34,7 @@ add("C06", "jaxpr2smt+pysym",
 
 add("C13", "jaxpr2smt+pysym",
     "bounded symbolic execution of the jaxpr of Graph.run with and without aux['record'] (settings enumerated) on the same symbolic state, user steps as uninterpreted functions; z3 decides non-interference, row faithfulness and frame condition; replay on the real run with a logging probe node",
-    "Threaded runtime (engine A on the real push_phase_shift/push_step/get_record): recorded rows hold exactly what the step was handed/returned (None where a setting is off), at most max_records oldest rows, and any setting/truncation leaves the steps handed, messages sent and timing state identical. Compiled runtime: enabling any combination of record settings changes no non-record leaf; the record row of every executed step holds exactly the seq/times/rng/state/inputs it was handed and the output it returned; all other rows are unchanged (so never-executed rows keep -1). Bounded: one run() from an arbitrary state, enumerated instances x settings.",
+    "Threaded runtime (engine A on the real push_phase_shift/push_step/get_record): recorded rows hold exactly what the step was handed/returned (None where a setting is off), at most max_records oldest rows, and any setting/truncation leaves the steps handed, messages sent and timing state identical. Compiled runtime: enabling any combination of record settings changes no non-record leaf; the record row of every executed step holds exactly the seq/times/rng/state/inputs it was handed and the output it returned; all other rows are unchanged (so never-executed rows keep -1). Bounded: one run() from an arbitrary state, enumerated instances x settings. ADDED: threaded runtime -- record eps == eps handed to the step == header eps (graph state and runtime may count episodes differently); messages consumed by recorded steps are recorded whatever max_records is; while stopping only the one pending supervisor step is recorded, with or without output recording; compiled -- recording can be switched on when pruning left nodes out of the supergraph; recorded rng is the key the step was handed (steps advance their keys).",
     "0<=step<=max_steps-1; executed steps of one node carry distinct in-range seqs (schedule adequacy); user step deterministic",
     "DESIGN.md §6 C13")
 
@@ -58,7 +58,7 @@ add("C18", "jaxpr2smt",
 
 add("C19", "jaxpr2smt",
     "bounded symbolic execution of the jaxprs of the live rex.rl wrapper step functions around an inner environment whose results are uninterpreted functions; z3 decides the one-step laws (incl. non-linear real arithmetic for pooled moments); counterexamples replayed on the real wrappers with the oracle returning the model's values",
-    "One-step laws for every input/history summary: Environment.step == graph.step with the supervisor output set from the action; AutoReset (stored and fresh init); LogWrapper accounting invariant; Squash/Clip action laws (within bounds, mutual inverses modulo listed tanh/atanh axioms); running observation/return normalisation == exact pooled mean/variance merge. Bounded: batch 2(3), obs dim 1(2). Environment.step is checked with user pre/post-step hooks that write every node's state (incl. the supervisor's) and an output computed from the incoming state. Wrapper stackings (log/auto-reset in both orders, fixed and fresh init, a three-deep stack): the stack's step accepts what its reset returned and keeps the reward/flag/initial-state/log-counter laws.",
+    "One-step laws for every input/history summary: Environment.step == graph.step with the supervisor output set from the action; AutoReset (stored and fresh init); LogWrapper accounting invariant; Squash/Clip action laws (within bounds, mutual inverses modulo listed tanh/atanh axioms); running observation/return normalisation == exact pooled mean/variance merge. Bounded: batch 2(3), obs dim 1(2). Environment.step is checked with user pre/post-step hooks that write every node's state (incl. the supervisor's) and an output computed from the incoming state. Wrapper stackings (log/auto-reset in both orders, fixed and fresh init, a three-deep stack): the stack's step accepts what its reset returned and keeps the reward/flag/initial-state/log-counter laws. ADDED: float32 obligation (z3 Float32, tanh uninterpreted with the range axiom): unsquash(x) lies inside [low, high] for every float32 x and all finite bounds low < high.",
     "floats as reals; tanh/atanh/sqrt uninterpreted with the axioms named in each obligation; 'statistics of everything seen' claimed as the merge law relative to the wrappers' 1e-4 pseudo-count prior; fresh-init auto-reset passes through modulo the advanced rng",
     "DESIGN.md §6 C19")
 
@@ -70,7 +70,7 @@ add("C20", "jaxpr2smt",
 
 add("C17", "jaxpr2smt",
     "bounded symbolic execution of the jaxprs of the live Transform.apply/inv compositions over z3 reals on symbolic parameter trees; z3 decides round trips, end points, strict monotonicity and composition order (closed forms for concrete members, uninterpreted functions for opaque members); counterexamples replayed on the real functions",
-    "For all parameter values and bounds with min<max on the enumerated tree shapes (nested, with None leaves): Denormalize inv/apply are mutual inverses, map -1/+1 to min/max and are strictly increasing; Exponential is the exp/log pair; Identity is the identity; Chain applies first-to-last and inverts last-to-first; Shared shares/restores; Extend.apply fills exactly the missing leaves. Extend.inv is not part of the statement and not claimed.",
+    "For all parameter values and bounds with min<max on the enumerated tree shapes (nested, with None leaves): Denormalize inv/apply are mutual inverses, map -1/+1 to min/max and are strictly increasing; Exponential is the exp/log pair; Identity is the identity; Chain applies first-to-last and inverts last-to-first; Shared shares/restores; Extend.apply fills exactly the missing leaves. Extend.inv is not part of the statement and not claimed. ADDED: bound trees whose leaves have different (non-broadcastable) shapes; Extend applied to trees whose None-pattern differs from the one given at init (incl. the default).",
     "floats as reals (the property allows rounding); log(exp x)=x axiom where named; tree shapes enumerated",
     "DESIGN.md §6 C17")
 
@@ -100,19 +100,19 @@ add("C02", "pysym",
 
 add("C01", "pysym+jaxpr2smt",
     "two-sided bounded symbolic differential: the unmodified asynchronous handlers are executed on z3-backed proxies along every feasible path (engine A) to produce per-step windows and records on symbolic timings; the real EpisodeRecord.to_graph and the jaxpr of the real utils.apply_window are evaluated on those records (engine B); z3 decides window equality for every executed receiver step on every path; counterexamples replayed with floats on both real sides",
-    "LEMMA-CHAIN CLAIM. Decided here: for one connection, <= 3 messages x <= 2(3) receiver steps, windows 1-2(3), all LATEST/BUFFER x skip x blocking policies and 2(4) rate pairs, for every phase/delay on a 1 ns grid, each executed receiver step is handed asynchronously exactly the window (seq, ts_sent, ts_recv, oldest first) that apply_window(record.to_graph()) yields, and carries seq k / the recorded start time. The rest of the end-to-end statement is covered by other checks' lemmas (payload identity C08, compiled step-state threading C09/C13, conversions C14, supergraph modes through C07/C08); their composition is a paper argument, not a solver result.",
+    "LEMMA-CHAIN CLAIM. Decided here: for one connection, <= 3 messages x <= 2(3) receiver steps, windows 1-2(3), all LATEST/BUFFER x skip x blocking policies and 2(4) rate pairs, for every phase/delay on a 1 ns grid, each executed receiver step is handed asynchronously exactly the window (seq, ts_sent, ts_recv, oldest first) that apply_window(record.to_graph()) yields, and carries seq k / the recorded start time. The rest of the end-to-end statement is covered by other checks' lemmas (payload identity C08, compiled step-state threading C09/C13, conversions C14, supergraph modes through C07/C08); their composition is a paper argument, not a solver result. ADDED: scheduling (PHASE) and advance variants of both nodes; the wrappers' initial state comes from the real _reset/_start; compiled threading lemma incl. the key each step returns (split) being the key the next step is handed.",
     "canonical executor order (justified by C02); simulated clock; times/delays quantified over the 1 ns grid; InputState.push by its list semantics (decided in C03); node.step an opaque deterministic function",
     "DESIGN.md §6 C01")
 
 add("C16", "pysym",
     "bounded symbolic execution of the unmodified BaseNode/Connection phase, phase_output, set_delay, info, from_info, connect_from_info on z3-backed proxies (expected delays as solver symbols, delay distributions as pure-python stand-ins); DAG shapes and skip labellings enumerated; z3 decides phase == longest non-skipped path against an explicit path-enumeration oracle; counterexamples replayed with floats",
-    "For every DAG on <= 3(4) nodes, (sampled) skip labellings and all expected delays in [0,1]: node.phase is the longest expected-delay path over non-skipped connections (0 for sources), phase_output/connection.phase follow; set_delay(delay=..) and set_delay(delay_dist=..) on nodes and connections take effect in phases, runtime objects and infos; from_info+connect_from_info rebuild equal infos/phases/connections; un-skipped cycles raise the algebraic-loop error; default expected delay = 99th percentile, negative rejected.",
+    "For every DAG on <= 3(4) nodes, (sampled) skip labellings and all expected delays in [0,1]: node.phase is the longest expected-delay path over non-skipped connections (0 for sources), phase_output/connection.phase follow; set_delay(delay=..) and set_delay(delay_dist=..) on nodes and connections take effect in phases, runtime objects and infos; from_info+connect_from_info rebuild equal infos/phases/connections; un-skipped cycles raise the algebraic-loop error; default expected delay = 99th percentile, negative rejected. ADDED: longer set_delay histories; info round trips with custom input names; threaded runtime: the next episode's reset uses the node's/connection's current phase (and -- known finding K5 -- not its current delay distribution).",
     "delay distributions are stand-ins exposing quantile/mean; one set_delay per node/connection after construction; expected delays on the 1us grid",
     "DESIGN.md §6 C16")
 
 add("C14", "pysym",
     "bounded symbolic execution of the unmodified Graph.stack/__getitem__/filter, EpisodeRecord.to_graph/filter, ExperimentRecord.to_graph/_padded_stack and utils.to_networkx_graph on numpy object arrays of solver symbols (lengths, subsets, flags enumerated; vertex/edge existence patterns explored by solver-checked forking); z3 decides the cell-wise and existence obligations; counterexamples replayed with concrete numbers",
-    "For <= 3(4) ragged episodes of length <= 3(4) and all cell values: stacking pads with -1 and keeps every original cell, indexing a stack returns the original episode, record->graph conversion is field-for-field, to_networkx_graph creates a vertex iff seq != -1 and an edge iff both ends are valid (never for padded entries), and Graph/EpisodeRecord.filter keep precisely the selected nodes and the connections among them for every subset of 3 nodes and both flags.",
+    "For <= 3(4) ragged episodes of length <= 3(4) and all cell values: stacking pads with -1 and keeps every original cell, indexing a stack returns the original episode, record->graph conversion is field-for-field, to_networkx_graph creates a vertex iff seq != -1 and an edge iff both ends are valid (never for padded entries), and Graph/EpisodeRecord.filter keep precisely the selected nodes and the connections among them for every subset of 3 nodes and both flags. ADDED: filters on nodes whose connections use custom input names; filters leave their source unchanged; to_networkx_graph without the optional nodes argument; records with custom input names (edges keyed by producer).",
     "most obligations are structural (cell identity): the solver generalises over cell values and enumerates existence patterns; graph contract for to_networkx_graph (gap-free seq, padding at the tail, edges name existing vertices) assumed",
     "DESIGN.md §6 C14")
 
